@@ -465,6 +465,16 @@ def run_rot(ctx, u):
                     if ok:
                         ctx.check(np.array_equal(np.asarray(oo), lab), "layout.original_orientation_from", shape=(H, W), corner=c,
                                   got=lambda: np.asarray(oo))
+                    # the same frame as a native-stored Array2D whose header names ANOTHER read-out corner (a frame mirrored together
+                    # with its layout after loading): the layout restores by its own corner - the rotation it was built with, applied
+                    # a second time
+                    for c_hdr in CORNERS:
+                        A_ = aa.Array2D(values=ra.astype(float).copy(), mask=aa.Mask2D.all_false(shape_native=ra.shape, pixel_scales=1.0),
+                                        header=aa.Header(original_roe_corner=c_hdr), store_native=True)
+                        ok, oo = ctx.guarded("layout.original_orientation_from", lay.original_orientation_from, array=A_)
+                        if ok:
+                            ctx.check(np.array_equal(np.asarray(native_of(oo)), lab), "layout.original_orientation_from", shape=(H, W), corner=c,
+                                      array_header_corner=c_hdr, container="native-stored Array2D", got=lambda: np.asarray(oo))
                 if not good:
                     continue
                 if lay.parallel_overscan is not None and slot == "parallel_overscan":
